@@ -331,7 +331,7 @@ package fsnotify
 //@     invariant token(reader) && nolocks() && Wf(w) && RingInv(w) && !closed(w.Events) && !closed(w.Errors) && !closed(w.doneResp)    [C05 C06]
 //@     invariant token(sawOpen)
 //@     invariant 0 <= k && k <= recN && loopvar == recOff[k]                              [C01 C03 C08] "the cursor is at the start of record k"
-//@     invariant hist(w.Events) == hs                                                     [C01 C03] "exactly the translated records so far, in order"
+//@     invariant hist(w.Events) == hs                                                     [C01 C03 C14] "exactly the translated records so far, in order"
 //@     invariant hist(w.Errors) == he || closed(w.done)                                   [C01 C10] "Errors holds exactly the overflow announcements so far"
 //@     invariant subset(p0, Pending)                                                      [C12] "a watch the kernel reported gone stays gone"
 //@     step hs = ite(ev.Op != 0, snoc(hs, ev), hs)
